@@ -25,7 +25,8 @@ Verdict(e) == CASE e.op = "tables" -> FirstFailing(AxesClauses(e))
                 [] e.op = "layout" -> LayoutVerdict(e)
                 [] e.op \in {"slice", "reduce"} -> ByNameVerdict(e)
 Judge(e) == LET r == Verdict(e) IN
-            IF r # "ok" THEN PrintT(<<"BAD", e.tid, l, r>>)
+            IF e.op = "tables" /\ r # "ok" THEN PrintT(<<"BAD", e.tid, l, AllFailing(AxesClauses(e))>>)
+            ELSE IF r # "ok" THEN PrintT(<<"BAD", e.tid, l, r>>)
             ELSE IF e.op = "tables" /\ [k \in DOMAIN SpecAxes(e.n) |-> e[k]] # SpecAxes(e.n)
                  THEN PrintT(<<"DRIFT", e.tid, l, "table differs from Axes.tla">>) ELSE TRUE
 Next == /\ l <= Len(Lines)
